@@ -30,7 +30,7 @@ func (x *Exec) chanPatterns(ch ssa.Value) []string {
 	if n := x.sourceName(ch); n != "" {
 		ps = append(ps, n)
 	}
-	return ps
+	return x.aliasedPatterns(ps)
 }
 
 // atChan runs at send/recv/close clauses for a channel operation and the
